@@ -62,6 +62,12 @@ type c05Req struct {
 func c05Run(e *Env, concurrent bool) {
 	t := e.Tape
 	ackTO := 2 * time.Second
+	// the connection's message pool recycles objects (LIFO) in two runs out of three: a reply recorded for
+	// duplicates must not live in memory that belongs to a pooled message
+	if pc := []uint32{0, 1, 1024}[t.Choose(3)]; e.PoolCapacity == 0 && pc > 0 {
+		e.PoolCapacity = pc
+		e.Probe("pool.recyclingOn")
+	}
 	cfg := SimUDPConfig(int32(t.Choose(65536)))
 	cfg.TransmissionAcknowledgeTimeout = ackTO
 	cfg.TransmissionMaxRetransmit = uint32(1 + t.Choose(3))
